@@ -2700,7 +2700,10 @@ impl KotoVm {
             (Range(r), Number(n)) if r.start().is_some() => {
                 let start = r.start().unwrap();
                 let index = self.validate_index(n, r.size())?;
-                Number((start + index as i64).into())
+                match i64::try_from(index).ok().and_then(|i| start.checked_add(i)) {
+                    Some(result) => Number(result.into()),
+                    None => return runtime_error!("index out of bounds - index: {n}"),
+                }
             }
             (Object(o), index) => o.try_borrow()?.index(&index)?,
             (unexpected_value, unexpected_index) => {
